@@ -344,6 +344,9 @@ class _HTTPRequestContext:
         for ip in (cand.strip() for cand in reversed(ip.split(","))):
             if ip not in self.trusted_downstream:
                 break
+        else:
+            # Every entry is a trusted proxy: the header supplies no client address.
+            ip = self.remote_ip
         ip = headers.get("X-Real-Ip", ip)
         if netutil.is_valid_ip(ip):
             self.remote_ip = ip
